@@ -519,3 +519,133 @@ func cmdRsweep(args []string) {
 		f.Close()
 	}
 }
+
+// ---------------------------------------------------------------------------
+// C09: block instructions. Per-Step traces (small and medium counts, overlap
+// distances, source/destination covering the instruction itself, wrap) and
+// whole-run events (count 0 = 65,536 Steps, 65,535, B = 0).
+
+func blockInit(r *rand.Rand, op int, cnt int, hl, de, pc int, a int) *InitSpec {
+	is := &InitSpec{R: RandState(r), Pend: []int{}}
+	isIO := op == 0xb2 || op == 0xba || op == 0xb3 || op == 0xbb || op == 0xa2 || op == 0xaa || op == 0xa3 || op == 0xab
+	if isIO {
+		is.R[2] = cnt & 255
+		is.R[3] = r.Intn(256)
+	} else {
+		is.R[2], is.R[3] = (cnt>>8)&255, cnt&255
+	}
+	is.R[0] = a
+	is.R[6], is.R[7] = hl>>8, hl&255
+	is.R[4], is.R[5] = de>>8, de&255
+	is.R[21] = pc
+	is.R[20] = 0x7000
+	is.Dev = DevDesc{Kind: "hash", Seed: r.Intn(1000), Len: 65536}
+	is.IO = IODesc{Kind: "hash", Seed: r.Intn(1000)}
+	is.Cells = [][2]int{{pc, 0xed}, {(pc + 1) & 0xffff, op}}
+	return is
+}
+
+// stepWhole steps until PC leaves the instruction (or max Steps); returns the count.
+func stepWhole(m *Machine, pc uint16, max int) int {
+	n := 0
+	for n < max {
+		m.CPU.Step()
+		n++
+		if m.CPU.PC != pc {
+			break
+		}
+	}
+	return n
+}
+
+func cmdBlocks(args []string) {
+	fs := flag.NewFlagSet("blocks", flag.ExitOnError)
+	out := fs.String("out", "", "output directory")
+	shards := fs.Int("shards", 16, "shards")
+	n := fs.Int("n", 20, "per-Step scenarios per shard")
+	whole := fs.Int("whole", 2, "whole-run scenarios per shard")
+	big := fs.Bool("big", false, "include 65,536-Step runs")
+	seed := fs.Int64("seed", 1, "seed")
+	fs.Parse(args)
+	rep := []int{0xb0, 0xb8, 0xb1, 0xb9, 0xb2, 0xba, 0xb3, 0xbb}
+	single := []int{0xa0, 0xa8, 0xa1, 0xa9, 0xa2, 0xaa, 0xa3, 0xab}
+	for sh := 0; sh < *shards; sh++ {
+		r := rand.New(rand.NewSource(*seed*2713 + int64(sh)))
+		f, w := openShard(*out, sh)
+		for i := 0; i < *n; i++ {
+			op := rep[(i+sh)%8]
+			pc := []int{0x0100, 0x4000, 0xfffe, 0xffff, 0x8000}[r.Intn(5)]
+			hl := []int{0x6000, 0xfffc, 0x0002, pc, (pc - 3) & 0xffff, r.Intn(65536)}[r.Intn(6)]
+			dist := []int{-3, -2, -1, 0, 1, 2, 3, 0x100, r.Intn(65536)}[r.Intn(9)]
+			de := (hl + dist) & 0xffff
+			if r.Intn(6) == 0 { // destination sweeping over the instruction itself
+				de = (pc - 2 - r.Intn(3)) & 0xffff
+			}
+			cnt := []int{1, 2, 3, 255, 256, 1 + r.Intn(40), 1 + r.Intn(300)}[r.Intn(7)]
+			if i%9 == 8 {
+				op = single[(i+sh)%8]
+				cnt = []int{0, 1, 2, 0x100, 0xffff}[r.Intn(5)]
+			}
+			a := r.Intn(256)
+			is := blockInit(r, op, cnt, hl, de, pc, a)
+			if op == 0xb1 || op == 0xb9 { // CPIR/CPDR: plant a match sometimes
+				if r.Intn(2) == 0 {
+					d := 1
+					if op == 0xb9 {
+						d = -1
+					}
+					is.Cells = append(is.Cells, [2]int{(hl + d*r.Intn(cnt+1)) & 0xffff, a})
+					is.Cells = dedupe(append(is.Cells[2:], is.Cells[:2]...))
+				}
+			}
+			m := NewMachine(is)
+			EmitInit(w, is)
+			for s := 0; s < 700; s++ {
+				m.StepAndEmit(w)
+				if int(m.CPU.PC) != pc {
+					break
+				}
+			}
+		}
+		for i := 0; i < *whole; i++ {
+			op := rep[(i+sh)%8]
+			pc := []int{0x0100, 0x9000}[r.Intn(2)]
+			hl := []int{0x6000, 0xfff0, 0x0000, r.Intn(65536)}[r.Intn(4)]
+			dist := []int{-3, -1, 0, 1, 2, 7, 0x1000, r.Intn(65536)}[r.Intn(8)]
+			cnt := []int{1, 2, 255, 256, 257, 1000 + r.Intn(3000)}[r.Intn(6)]
+			isIO := op >= 0xb2 && op != 0xb8 && op != 0xb9 && (op&3) >= 2
+			if *big && (i%2 == 0) {
+				cnt = []int{0, 0xffff}[r.Intn(2)]
+			}
+			if isIO {
+				cnt = []int{0, 1, 2, 255, r.Intn(256)}[r.Intn(5)]
+			}
+			a := r.Intn(256)
+			if *big && (i%2 == 0) && (op == 0xb0 || op == 0xb8) {
+				// 65,536 (65,535) repetitions that leave the opcode bytes as they are: a self-copy,
+				// or the two opcode bytes propagated with period 2 over the whole address space
+				switch r.Intn(3) {
+				case 0:
+					dist = 0
+				default:
+					if op == 0xb0 {
+						hl, dist = pc, 2
+					} else {
+						hl, dist = (pc+1)&0xffff, -2
+					}
+				}
+			}
+			is := blockInit(r, op, cnt, hl, (hl+dist)&0xffff, pc, a)
+			m := NewMachine(is)
+			EmitInit(w, is)
+			m.Mem.Reset()
+			m.IO.Reset()
+			steps := stepWhole(m, uint16(pc), 70000)
+			rg := Regs(&m.CPU.States)
+			fmt.Fprintf(w, `{"e":"w","steps":%d,"r":%s,"h":%d,"md":%s,"pio":%s}`+"\n", steps, jInts(rg[:]), b2i(m.CPU.HALT),
+				jPairs(m.Mem.Diff()), jTriples(m.IO.Log))
+		}
+		w.Flush()
+		f.Close()
+	}
+}
